@@ -237,7 +237,19 @@ def run_lean_driver(driver, lines, lean_dir=LEAN, shards=8):
         if rc == -9 and e == "timeout":
             raise HarnessTimeout("Lean driver %s did not finish within %.0f s" % (driver, budget))
         if rc != 0 or len(o) != len(ch):
-            raise RuntimeError("Lean driver failed (rc=%s, %d/%d lines): %s" % (rc, len(o), len(ch), e[-2000:]))
+            # one retry of the shard on its own: a transient failure (a concurrent `lake build` replacing an .olean
+            # under the running driver, memory pressure) must not be reported as a broken correspondence
+            first = "rc=%s, %d/%d lines, stdout head %r, stderr tail %r" % (rc, len(o), len(ch), "\n".join(o[:3])[:300], e[-300:])
+            try:
+                r = subprocess.run(["lake", "env", "lean", "--run", driver], cwd=lean_dir, input="\n".join(ch) + "\n",
+                                   capture_output=True, text=True, timeout=budget)
+            except subprocess.TimeoutExpired:
+                raise HarnessTimeout("Lean driver %s did not finish within %.0f s (retry of a failed shard)" % (driver, budget))
+            o, e, rc = r.stdout.splitlines(), r.stderr, r.returncode
+            if rc != 0 or len(o) != len(ch):
+                raise RuntimeError("Lean driver failed twice (first: %s; retry: rc=%s, %d/%d lines): %s | %s"
+                                   % (first, rc, len(o), len(ch), "\n".join(o[:3])[:300], e[-2000:]))
+            log("[engine] Lean driver shard failed once (%s) and succeeded on retry" % first)
         for j, line in enumerate(o):
             outs[i + j * shards] = line
     return outs
